@@ -52,15 +52,19 @@ def run(run_, ctx):
     who_may_call(run_, F, pc)
     flavor_agnostic(run_, F, pc)
     siblings(run_, F, pc)
-    if ctx.tier == "thorough":
-        try:
-            run_groups(run_, ctx, [
-                ("R", "de_reader", None, "reader flavor (embedded-io 0.4)"),
-                ("B", "de_sliding", None, "sliding scratch buffer (embedded-io 0.4 build)"),
-                ("W", "ser_writer", None, "writer flavor (embedded-io 0.4)"),
-            ], config="B")
-        except FileNotFoundError:
-            run_.note("no specified summaries for configuration B")
+    # configuration B: the same adapters built against embedded-io 0.4 (the two embedded-io features are mutually exclusive)
+    run_groups(run_, ctx, [
+        ("R4", "de_reader", None, "reader flavor (embedded-io 0.4 build)"),
+        ("W4", "ser_writer", None, "writer flavor (embedded-io 0.4 build)"),
+        ("E4", "de_entry", lambda k: k in ("de::from_io", "de::from_eio"), "reader entry point (embedded-io 0.4 build)"),
+        ("E4", "ser_entry", lambda k: k in ("ser::to_io", "ser::to_eio"), "writer entry point (embedded-io 0.4 build)"),
+    ], config="B")
+    run_.floor("R4", 10)
+    run_.floor("W4", 8)
+    run_.floor("E4", 4)
+    FB = ctx.facts("B")
+    who_may_call(run_, FB, FB.crate("postcard"), rule="WR4")
+    check_sliding(run_, FB, FB.crate("postcard"), rule="BX4", config="B")
     run_.explanation = (
         "Reader and writer flavors (std and embedded-io), the sliding scratch buffer and the four io entry points are summarised per path from "
         "MIR and compared with specified summaries; a who-may-call pass lists every call whose receiver is a Read/Write implementor in the "
@@ -70,20 +74,20 @@ def run(run_, ctx):
     run_.trusted += ["std::io::Read::read_exact / Write::write_all / flush contracts", "embedded-io Read/Write contracts"]
 
 
-def check_sliding(run_, F, pc):
+def check_sliding(run_, F, pc, rule="BX", config="A"):
     """C11.BX: the scratch buffer as seen through the reader flavors, against the hand-written specification (rules/handspec.py)"""
     import handspec
-    ren = glue.renames(F, pc, glue.load2("A"))
-    handspec.check(run_, "BX", F, pc, [k for k in handspec.HAND if k.startswith("<de::flavors::io::")],
+    ren = glue.renames(F, pc, glue.load2(config))
+    handspec.check(run_, rule, F, pc, [k for k in handspec.HAND if k.startswith("<de::flavors::io::")],
                    "reader scratch: fails iff ct > remaining; slot = [cursor, cursor+ct) reserved before exactly one read_exact; cursor += ct", renames=ren)
-    run_.floor("BX", 6)
+    run_.floor(rule, 6)
 
 
 READ_OK = ("read_exact",)
 WRITE_OK = ("write_all", "flush")
 
 
-def who_may_call(run_, F, pc):
+def who_may_call(run_, F, pc, rule="WR"):
     n = 0
     for f in pc.fns:
         for bb in f.blocks:
@@ -94,11 +98,11 @@ def who_may_call(run_, F, pc):
             tr = c.get("trait") or ""
             if tr in ("std::io::Read", "embedded_io::Read") or tr.endswith("::Read") and ("io" in tr):
                 n += 1
-                run_.check(c["name"] in READ_OK, "WR", "%s calls Read::%s" % (summ.fn_key(f), c["name"]),
+                run_.check(c["name"] in READ_OK, rule, "%s calls Read::%s" % (summ.fn_key(f), c["name"]),
                            "only read_exact may be called on the byte reader (anything else can consume bytes beyond the message)", f.where())
             elif tr in ("std::io::Write", "embedded_io::Write") or tr.endswith("::Write") and ("io" in tr) and "fmt" not in tr:
                 n += 1
-                run_.check(c["name"] in WRITE_OK, "WR", "%s calls Write::%s" % (summ.fn_key(f), c["name"]),
+                run_.check(c["name"] in WRITE_OK, rule, "%s calls Write::%s" % (summ.fn_key(f), c["name"]),
                            "only write_all/flush may be called on the byte writer (write() may accept a short count)", f.where())
     # no buffering wrappers around the reader: the reader flavors' `new` store the reader unchanged (summaries), and no
     # function of the crate constructs std::io::BufReader / Take / Chain
@@ -106,8 +110,8 @@ def who_may_call(run_, F, pc):
         for bb in f.blocks:
             t = bb["term"]
             if t["k"] == "call" and t["callee"] and re.search(r"io::(buffered|BufReader|Take|Chain)", t["callee"]["def"]):
-                run_.bad("WR", "%s uses %s" % (summ.fn_key(f), t["callee"]["def"]), "a buffering/adapting wrapper around the reader can over-read", f.where())
-    run_.floor("WR", 4)   # at least read_exact, write_all and flush must be seen; how many call sites there are is code shape
+                run_.bad(rule, "%s uses %s" % (summ.fn_key(f), t["callee"]["def"]), "a buffering/adapting wrapper around the reader can over-read", f.where())
+    run_.floor(rule, 4)   # at least read_exact, write_all and flush must be seen; how many call sites there are is code shape
 
 
 def flavor_agnostic(run_, F, pc):
